@@ -90,6 +90,13 @@ type mrFunc struct {
 	regions  map[string]*aobj
 	allocs   map[token.Pos]*aobj
 	closureP map[types.Object]bool
+	// flow facts about LOCAL struct variables (computed once per function by structFlow):
+	// copyKills: for `c := *src` — the fields of c that are reassigned before anything can read the copied value;
+	// override:  a use of `c.f` that is preceded, in the same block, by a direct assignment `c.f = rhs` reads rhs
+	structCopies map[*ast.AssignStmt]bool
+	copyKills    map[types.Object]map[string]bool
+	override     map[*ast.SelectorExpr]ast.Expr
+	flowDone     bool
 }
 
 type mrWorld struct {
@@ -402,6 +409,9 @@ func (c *mrCtx) pts(e ast.Expr) objSet {
 	case *ast.ParenExpr:
 		return c.pts(x.X)
 	case *ast.SelectorExpr:
+		if rhs := c.f.override[x]; rhs != nil {
+			return c.pts(rhs)
+		}
 		if sel, ok := info.Selections[x]; ok {
 			if sel.Kind() == types.FieldVal {
 				return c.load(c.pts(x.X), x.Sel.Name, c.typeOf(x))
@@ -975,9 +985,231 @@ func (c *mrCtx) noteReturn(v objSet) {
 	}
 }
 
+// ---- a little flow-sensitivity for local struct variables ------------------------------------------------------------
+//
+// `c := *u` copies a struct: c is a NEW object whose reference fields hold what u's fields hold (a shallow copy), not u
+// itself. Two facts that a flow-insensitive summary cannot see are read off the statement order:
+//   - a field that is reassigned directly (`c.f = rhs`, rhs not mentioning c) in the statements that immediately follow the
+//     copy — or under `if u.f != nil { c.f = rhs … }`, the copied value being nil otherwise — never exposes the copied value;
+//   - a use of `c.f` after a direct assignment `c.f = rhs` earlier in the same block (nothing in between touching c as a
+//     whole or assigning c.f) reads rhs.
+func mentions(info *types.Info, n ast.Node, o types.Object) bool {
+	found := false
+	ast.Inspect(n, func(m ast.Node) bool {
+		if id, ok := m.(*ast.Ident); ok && (info.Uses[id] == o || info.Defs[id] == o) {
+			found = true
+		}
+		return !found
+	})
+	return found
+}
+
+// directFieldAssign: `c.f = rhs` with c a local struct-valued variable and rhs not mentioning c
+func directFieldAssign(info *types.Info, st ast.Stmt) (o types.Object, field string, rhs ast.Expr, ok bool) {
+	as, isAs := st.(*ast.AssignStmt)
+	if !isAs || as.Tok != token.ASSIGN || len(as.Lhs) != 1 || len(as.Rhs) != 1 {
+		return
+	}
+	sel, isSel := as.Lhs[0].(*ast.SelectorExpr)
+	if !isSel {
+		return
+	}
+	id, isId := sel.X.(*ast.Ident)
+	if !isId {
+		return
+	}
+	v, _ := info.Uses[id].(*types.Var)
+	if v == nil || isPkgVar(v) || !isStructVal(v.Type()) {
+		return
+	}
+	if _, isStruct := v.Type().Underlying().(*types.Struct); !isStruct {
+		return
+	}
+	if mentions(info, as.Rhs[0], v) {
+		return
+	}
+	return v, sel.Sel.Name, as.Rhs[0], true
+}
+
+func (f *mrFunc) structFlow() {
+	if f.flowDone {
+		return
+	}
+	f.flowDone = true
+	f.structCopies = map[*ast.AssignStmt]bool{}
+	f.copyKills = map[types.Object]map[string]bool{}
+	f.override = map[*ast.SelectorExpr]ast.Expr{}
+	info := f.info
+	// variables whose address-taking or whole-value use makes per-field reasoning about later statements unsafe are handled
+	// statement by statement below (a statement that mentions the bare variable ends the tracked facts AFTER it)
+	bareUse := func(st ast.Node, o types.Object) bool {
+		bare := false
+		ast.Inspect(st, func(m ast.Node) bool {
+			if bare {
+				return false
+			}
+			if sel, ok := m.(*ast.SelectorExpr); ok {
+				if id, ok := sel.X.(*ast.Ident); ok && info.Uses[id] == o {
+					return false // c.f: not a bare use (the field is looked at separately)
+				}
+			}
+			if id, ok := m.(*ast.Ident); ok && info.Uses[id] == o {
+				bare = true
+			}
+			return true
+		})
+		return bare
+	}
+	assignsField := func(st ast.Node, o types.Object, field string) bool {
+		found := false
+		ast.Inspect(st, func(m ast.Node) bool {
+			switch x := m.(type) {
+			case *ast.AssignStmt:
+				for _, l := range x.Lhs {
+					if sel, ok := l.(*ast.SelectorExpr); ok && sel.Sel.Name == field {
+						if id, ok := sel.X.(*ast.Ident); ok && info.Uses[id] == o {
+							found = true
+						}
+					}
+				}
+			case *ast.IncDecStmt:
+				if sel, ok := x.X.(*ast.SelectorExpr); ok && sel.Sel.Name == field {
+					if id, ok := sel.X.(*ast.Ident); ok && info.Uses[id] == o {
+						found = true
+					}
+				}
+			case *ast.UnaryExpr:
+				if x.Op == token.AND {
+					if sel, ok := x.X.(*ast.SelectorExpr); ok && sel.Sel.Name == field {
+						if id, ok := sel.X.(*ast.Ident); ok && info.Uses[id] == o {
+							found = true // &c.f escapes the field
+						}
+					}
+				}
+			}
+			return !found
+		})
+		return found
+	}
+	type key struct {
+		o types.Object
+		f string
+	}
+	var block func(list []ast.Stmt)
+	block = func(list []ast.Stmt) {
+		cur := map[key]ast.Expr{}
+		for k, st := range list {
+			// (a) a struct copy `c := *src` and the kills that follow it
+			if as, ok := st.(*ast.AssignStmt); ok && as.Tok == token.DEFINE && len(as.Lhs) == 1 && len(as.Rhs) == 1 {
+				if id, ok := as.Lhs[0].(*ast.Ident); ok {
+					if star, ok := as.Rhs[0].(*ast.StarExpr); ok {
+						if v, _ := info.Defs[id].(*types.Var); v != nil {
+							if _, isStruct := v.Type().Underlying().(*types.Struct); isStruct {
+								f.structCopies[as] = true
+								kills := map[string]bool{}
+								src := exprStr(star.X)
+								for _, nx := range list[k+1:] {
+									if o, fld, _, ok := directFieldAssign(info, nx); ok && o == v {
+										kills[fld] = true
+										continue
+									}
+									// if src.f != nil { c.f = rhs ; … }   (no else): the copied value is nil otherwise
+									if ifs, ok := nx.(*ast.IfStmt); ok && ifs.Init == nil && ifs.Else == nil && len(ifs.Body.List) > 0 {
+										if be, ok := ifs.Cond.(*ast.BinaryExpr); ok && be.Op == token.NEQ {
+											x, y := be.X, be.Y
+											if exprStr(x) == "nil" {
+												x, y = y, x
+											}
+											if sel, ok := x.(*ast.SelectorExpr); ok && exprStr(y) == "nil" && exprStr(sel.X) == src {
+												if o, fld, _, ok := directFieldAssign(info, ifs.Body.List[0]); ok && o == v && fld == sel.Sel.Name {
+													kills[fld] = true
+													continue
+												}
+											}
+										}
+									}
+									break
+								}
+								f.copyKills[v] = kills
+							}
+						}
+					}
+				}
+			}
+			// (b) uses of c.f in this statement that an earlier direct assignment of this block decides
+			if len(cur) > 0 {
+				_, _, _, isDirect := directFieldAssign(info, st)
+				var lhs0 ast.Expr
+				if isDirect {
+					lhs0 = st.(*ast.AssignStmt).Lhs[0]
+				}
+				ast.Inspect(st, func(m ast.Node) bool {
+					sel, ok := m.(*ast.SelectorExpr)
+					if !ok || ast.Expr(sel) == lhs0 {
+						return true
+					}
+					if id, ok := sel.X.(*ast.Ident); ok {
+						if o := info.Uses[id]; o != nil {
+							if rhs := cur[key{o, sel.Sel.Name}]; rhs != nil && !assignsField(st, o, sel.Sel.Name) {
+								f.override[sel] = rhs
+							}
+						}
+					}
+					return true
+				})
+			}
+			// (c) what this statement does to the tracked facts
+			for kk := range cur {
+				if assignsField(st, kk.o, kk.f) || bareUse(st, kk.o) {
+					delete(cur, kk)
+				}
+			}
+			if o, fld, rhs, ok := directFieldAssign(info, st); ok {
+				cur[key{o, fld}] = rhs
+			}
+		}
+	}
+	ast.Inspect(f.decl.Body, func(n ast.Node) bool {
+		switch x := n.(type) {
+		case *ast.BlockStmt:
+			block(x.List)
+		case *ast.CaseClause:
+			block(x.Body)
+		case *ast.CommClause:
+			block(x.Body)
+		case *ast.FuncLit:
+			return false // closures: no flow facts
+		}
+		return true
+	})
+}
+
+// structCopy: `c := *src` — a shallow copy into c's own storage, without the fields that copyKills lists
+func (c *mrCtx) structCopy(id *ast.Ident, rhs ast.Expr) {
+	v, _ := c.f.info.Defs[id].(*types.Var)
+	st, _ := v.Type().Underlying().(*types.Struct)
+	if v == nil || st == nil {
+		c.assign(id, c.pts(rhs), c.typeOf(rhs))
+		return
+	}
+	src := c.pts(rhs)
+	a := c.alloc(v.Pos())
+	kills := c.f.copyKills[v]
+	for i := 0; i < st.NumFields(); i++ {
+		fld := st.Field(i)
+		if kills[fld.Name()] || !refLike(fld.Type(), 0) {
+			continue
+		}
+		if c.storeField(a, fld.Name(), c.load(src, fld.Name(), fld.Type()), configType(fld.Type())) {
+			c.ch = true
+		}
+	}
+}
+
 func (c *mrCtx) analyse() {
 	f := c.f
 	info := f.info
+	f.structFlow()
 	ast.Inspect(f.decl.Body, func(n ast.Node) bool {
 		switch x := n.(type) {
 		case *ast.AssignStmt:
@@ -991,6 +1223,10 @@ func (c *mrCtx) analyse() {
 						} else if o := info.Uses[l.(*ast.Ident)]; o != nil && isPkgVar(o) {
 							c.noteWrite(objSet{c.region("global"): true})
 						}
+						continue
+					}
+					if f.structCopies[x] {
+						c.structCopy(l.(*ast.Ident), x.Rhs[i])
 						continue
 					}
 					c.assign(l, c.pts(x.Rhs[i]), c.typeOf(x.Rhs[i]))
